@@ -4,7 +4,7 @@ CONSTANTS
   Mults = {1, 2}
   Positions <- PosDef
   Spreads = {0, 2}
-  Comms = {"zero", "fix", "unit", "tier", "prop"}
+  Comms = {"zero", "fix", "unit", "tier", "prop", "sell", "buy"}
   AmtLo <- LoQuick
   AmtHi = 60
 INVARIANT Inv_ShippedInClasses
